@@ -3,7 +3,7 @@
 Sequential half: explicit-state search to closure over {write, read, setFileSize, abort, setBufferSize}
 against a reference model.  Concurrent half: producer, consumer and a third thread (setFileSize(n) or
 abort()) on the bare queue - every interleaving at synchronisation points with preemption bound 2 and
-unbounded free switches, deviation bound 3, and all interleavings without any bound for n <= 3."""
+unbounded free switches, deviation bound 3, and all interleavings without any bound for n <= 3 (quick: n = 3 only for capacities 2 and 3)."""
 from checks import schedcheck, seqcheck
 
 
@@ -32,7 +32,7 @@ def stages(tier):
                    configs=[qcfg(c, n, t, 3, 0) for c in (1, 2, 3) for n in range(0, 5) for t in thirds], share=0.3))
     full_n = (0, 1, 2, 3)
     st.append(dict(label="ALL: every interleaving (no bound)", harness="h_queue", variant="sched", chunk=1,
-                   configs=[qcfg(c, n, t, 60, 1) for c in (1, 2, 3) for n in full_n for t in thirds], share=0.5))
+                   configs=[qcfg(c, n, t, 60, 1) for c in (1, 2, 3) for n in full_n for t in thirds if not (quick and n == 3 and c == 1)], share=0.6))
     st.append(dict(label="ASAN: preemption bound 2 under AddressSanitizer", harness="h_queue", variant="sched-asan", chunk=2,
                    configs=[qcfg(c, n, t, 2, 1, postrelease=1) for c in (1, 2) for n in (1, 2, 3) for t in thirds], share=0.3))
     return st
